@@ -260,16 +260,19 @@ class Trimesh(Geometry3D):
         # make sure nothing in the cache is from before the vertices or
         # faces were changed as the lock skips that check
         self._cache.verify()
+        # if we're cleaning remove duplicate and degenerate faces
+        # this removes and re-winds faces so it has to happen before
+        # the cache is locked: inside the lock values computed for
+        # the old faces would be used and kept
+        if validate:
+            # get a mask with only unique and non-degenerate faces
+            mask = self.unique_faces() & self.nondegenerate_faces()
+            self.update_faces(mask)
+            self.fix_normals()
+            self._cache.verify()
+
         # avoid clearing the cache during operations
         with self._cache:
-            # if we're cleaning remove duplicate
-            # and degenerate faces
-            if validate:
-                # get a mask with only unique and non-degenerate faces
-                mask = self.unique_faces() & self.nondegenerate_faces()
-                self.update_faces(mask)
-                self.fix_normals()
-
             # since none of our process operations moved vertices or faces
             # we can keep face and vertex normals in the cache without recomputing
             # if faces or vertices have been removed, normals are validated before
